@@ -24,6 +24,10 @@ pub struct FileSpec {
     #[serde(default)]
     pub bytes: Option<Vec<u8>>,
     pub mode: u32,
+    /// the path is a symbolic link to this target (relative to the link's directory); text/bytes then hold the
+    /// target's content, which is what reading the link yields
+    #[serde(default)]
+    pub symlink: Option<String>,
 }
 
 impl FileSpec {
@@ -48,10 +52,12 @@ pub struct Tree {
 
 #[derive(Clone, Debug, PartialEq)]
 pub struct Snap {
+    /// file content; for a symbolic link the link target (the link itself is the path's "content")
     pub bytes: Vec<u8>,
     pub mtime_ns: i128,
     pub mode: u32,
     pub ino: u64,
+    pub is_symlink: bool,
 }
 
 pub fn is_note_path(rel: &str) -> bool {
@@ -130,7 +136,7 @@ pub fn generate(seed: u64, thorough: bool) -> Tree {
             }
         };
         let mode = if work.chance(1, 10) { 0o600 } else { 0o644 };
-        files.push(FileSpec { rel: format!("{}{}.md", lib_prefix, k), text: Some(text), bytes: None, mode });
+        files.push(FileSpec { rel: format!("{}{}.md", lib_prefix, k), text: Some(text), bytes: None, mode, symlink: None });
     }
     // non-note files
     let extras: Vec<(&str, Vec<u8>)> = vec![
@@ -152,17 +158,30 @@ pub fn generate(seed: u64, thorough: bool) -> Tree {
         if work.chance(1, 4) {
             let rel = format!("{}{}", lib_prefix, name);
             if !files.iter().any(|f| f.rel == rel) {
-                files.push(FileSpec { rel, text: None, bytes: Some(bytes), mode: 0o644 });
+                files.push(FileSpec { rel, text: None, bytes: Some(bytes), mode: 0o644, symlink: None });
             }
         }
     }
     if !library.is_empty() && work.chance(1, 2) {
         // a note outside the library: must not be touched
-        files.push(FileSpec { rel: "outside.md".into(), text: Some("#   outside   the library\n\n\n\ntext\n".into()), bytes: None, mode: 0o644 });
+        files.push(FileSpec { rel: "outside.md".into(), text: Some("#   outside   the library\n\n\n\ntext\n".into()), bytes: None, mode: 0o644, symlink: None });
+    }
+    if work.chance(1, 6) {
+        // a note that is a symbolic link: to another note of the library, or (library in a sub-directory) to a file outside
+        let notes: Vec<FileSpec> = files.iter().filter(|f| f.rel.starts_with(&lib_prefix) && is_note_path(&f.rel) && f.text.is_some() && !f.rel[lib_prefix.len()..].contains('/')).cloned().collect();
+        if let Some(t) = notes.first() {
+            let name = t.rel[lib_prefix.len()..].to_string();
+            files.push(FileSpec { rel: format!("{}links/alias.md", lib_prefix), text: t.text.clone(), bytes: None, mode: 0o644, symlink: Some(format!("../{}", name)) });
+        }
+        if !library.is_empty() {
+            let outside = "#   outside   target\n\n\n\n* star item\n".to_string();
+            files.push(FileSpec { rel: "outside-target.md".into(), text: Some(outside.clone()), bytes: None, mode: 0o644, symlink: None });
+            files.push(FileSpec { rel: format!("{}ext.md", lib_prefix), text: Some(outside), bytes: None, mode: 0o644, symlink: Some("../outside-target.md".into()) });
+        }
     }
     if has_config {
         let toml = format!("prompt_key_prefix = \"prompt\"\n\n[markdown]\nrefs_extension = \"{}\"\n\n[library]\npath = \"{}\"\n\n[models]\n\n[actions]\n", refs_ext, library);
-        files.push(FileSpec { rel: ".iwe/config.toml".into(), text: Some(toml), bytes: None, mode: 0o644 });
+        files.push(FileSpec { rel: ".iwe/config.toml".into(), text: Some(toml), bytes: None, mode: 0o644, symlink: None });
     }
     let empty_dirs = if work.chance(1, 4) { vec![format!("{}emptydir", lib_prefix)] } else { vec![] };
     Tree { files, empty_dirs, library, refs_ext, has_config }
@@ -180,6 +199,10 @@ pub fn materialise(tree: &Tree, root: &Path) -> std::io::Result<()> {
         let p = root.join(&f.rel);
         if let Some(parent) = p.parent() {
             std::fs::create_dir_all(parent)?;
+        }
+        if let Some(target) = &f.symlink {
+            std::os::unix::fs::symlink(target, &p)?;
+            continue;
         }
         std::fs::write(&p, f.content())?;
         std::fs::set_permissions(&p, std::fs::Permissions::from_mode(f.mode))?;
@@ -201,11 +224,12 @@ pub fn snapshot(root: &Path) -> BTreeMap<String, Snap> {
                 Err(_) => continue,
             };
             if md.is_dir() {
-                out.insert(format!("{}/", rel), Snap { bytes: vec![], mtime_ns: 0, mode: md.mode() & 0o7777, ino: 0 });
+                out.insert(format!("{}/", rel), Snap { bytes: vec![], mtime_ns: 0, mode: md.mode() & 0o7777, ino: 0, is_symlink: false });
                 walk(root, &p, out);
             } else {
-                let bytes = std::fs::read(&p).unwrap_or_default();
-                out.insert(rel, Snap { bytes, mtime_ns: md.mtime() as i128 * 1_000_000_000 + md.mtime_nsec() as i128, mode: md.mode() & 0o7777, ino: md.ino() });
+                let is_symlink = md.file_type().is_symlink();
+                let bytes = if is_symlink { std::fs::read_link(&p).map(|t| t.to_string_lossy().as_bytes().to_vec()).unwrap_or_default() } else { std::fs::read(&p).unwrap_or_default() };
+                out.insert(rel, Snap { bytes, mtime_ns: md.mtime() as i128 * 1_000_000_000 + md.mtime_nsec() as i128, mode: md.mode() & 0o7777, ino: md.ino(), is_symlink });
             }
         }
     }
